@@ -470,6 +470,9 @@ func generatedInput(c *Ctx, l *core.Lane) (data []byte, name string, fmap []gen.
 		o.Surround, o.Use64 = l.Bool(), l.Bool()
 		o.Tail = c.L(l.Name + ":x").Intn(3)
 		o.Brands = c.L(l.Name + ":x").Intn(12)
+		if y := c.L("gen:y"); y.Chance(1, 3) {
+			o.Top64 = 1 + y.Intn(7)
+		}
 		cr := gen.DrawCR3(l, o)
 		return cr.Bytes, "gen:CR3+XMP+PRVW", cr.Map
 	default:
